@@ -33,6 +33,8 @@ type graph struct {
 	Dangling int      `json:"dangling"` // -1 or index of step that gets an unknown dependency name
 	Dpos     int      `json:"dpos"`     // position of the dangling name inside that step's depends list
 	Fam      string   `json:"fam"`
+	Dup      []uint64 `json:"dup,omitempty"` // dup[i] bit j: step i lists its dependency on j twice
+	DupAdj   bool     `json:"dupAdjacent,omitempty"`
 }
 
 func (g graph) steps() []dag.Step {
@@ -43,6 +45,25 @@ func (g graph) steps() []dag.Step {
 			if g.Adj[i]>>uint(j)&1 == 1 {
 				deps = append(deps, name(j))
 			}
+		}
+		if g.Dup != nil {
+			var out []string
+			for j := 0; j < g.N; j++ {
+				if g.Adj[i]>>uint(j)&1 == 1 {
+					out = append(out, name(j))
+					if g.DupAdj && g.Dup[i]>>uint(j)&1 == 1 {
+						out = append(out, name(j))
+					}
+				}
+			}
+			if !g.DupAdj {
+				for j := 0; j < g.N; j++ {
+					if g.Adj[i]>>uint(j)&1 == 1 && g.Dup[i]>>uint(j)&1 == 1 {
+						out = append(out, name(j))
+					}
+				}
+			}
+			deps = out
 		}
 		if g.Dangling == i {
 			p := g.Dpos
@@ -75,6 +96,9 @@ func (g graph) String() string {
 		}
 		if g.Dangling == i {
 			deps = append(deps, fmt.Sprintf("ghost@%d", g.Dpos))
+		}
+		if g.Dup != nil && g.Dup[i] != 0 {
+			deps = append(deps, fmt.Sprintf("twice:%b/adj=%v", g.Dup[i], g.DupAdj))
 		}
 		if len(deps) > 0 {
 			fmt.Fprintf(&sb, " %s<-[%s]", name(i), strings.Join(deps, ","))
@@ -326,6 +350,28 @@ func main() {
 			}
 		}
 	}
+	// (1b) repeated entries inside one depends list: every digraph on n <= 3 steps with every subset of its edges listed twice
+	//      (appended at the end of the list, and adjacent to the first occurrence)
+	for n := 1; n <= 3; n++ {
+		total := uint64(1) << uint(n*n)
+		for m := uint64(0); m < total; m++ {
+			adj := make([]uint64, n)
+			for i := 0; i < n; i++ {
+				adj[i] = m >> uint(i*n) & (1<<uint(n) - 1)
+			}
+			// every non-empty subset of the edge set
+			for sub := m; sub > 0; sub = (sub - 1) & m {
+				dup := make([]uint64, n)
+				for i := 0; i < n; i++ {
+					dup[i] = sub >> uint(i*n) & (1<<uint(n) - 1)
+				}
+				for _, adjacent := range []bool{false, true} {
+					c.check(graph{N: n, Adj: adj, Order: ident(n), Dangling: -1, Fam: "repeated-depends-entries", Dup: dup, DupAdj: adjacent})
+				}
+			}
+		}
+	}
+	res.Bounds["repeated_depends_entries_n_le"] = 3
 	res.Bounds["all_digraphs_with_self_loops_n_le"] = 4
 	res.Bounds["step_order_permuted_n_le"] = 3
 
@@ -464,7 +510,7 @@ func main() {
 	}
 	res.States = int64(len(c.classes))
 	res.Rule = "every member of the stated finite graph families is built as []dag.Step and handed to the real scheduler.NewExecutionGraph; distinct = distinct graph (edge set, listing order, dangling position); non-trivial = has at least one dependency edge or a dangling name"
-	res.Assume("step names are distinct (as the property states); duplicate entries inside one depends list are not enumerated")
+	res.Assume("step names are distinct (as the property states)")
 	res.Write(fl.Out)
 	os.RemoveAll(fl.Work)
 }
